@@ -123,3 +123,10 @@ func Fail(format string, a ...interface{}) {
 	fmt.Fprintf(os.Stderr, "harness error: "+format+"\n", a...)
 	os.Exit(3)
 }
+
+// Stater is implemented by runners whose canonical state projection (what their observation
+// lines carry, read through queries/getters) can be rendered on demand; the cross-cutting
+// harnesses (genesis round trip, replicas) compare it before and after.
+type Stater interface {
+	State(ctx sdk.Context) string
+}
